@@ -56,6 +56,10 @@ def cases(shard, rnd):
         pts.update([2**63, 2**63 + 1, -2**63 - 1, -2**63 - 2, 10**25,
                     -10**25, 10**4299, 10**4300, -10**4301, 10**6000,
                     2**20000])
+        # live dictionary: integer constants of the tree under test (+-1,
+        # negated), and array / table sizes taken from it
+        from ..gen import magic
+        pts.update(magic.pool().ints)
         for legacy in (False, True):
             for n in sorted(pts):
                 for pos in ('top', 'array', 'table', 'nested3', 'array12',
@@ -76,8 +80,9 @@ def cases(shard, rnd):
         for name, bits, signed in FIXED:
             lo, hi = (-(1 << bits - 1), (1 << bits - 1) - 1) if signed \
                 else (0, (1 << bits) - 1)
-            for v in (lo - 2, lo - 1, lo, lo + 1, hi - 1, hi, hi + 1, hi + 2,
-                      0, -1, 2**70, -2**70, 10**4300, -10**5000):
+            for v in [lo - 2, lo - 1, lo, lo + 1, hi - 1, hi, hi + 1, hi + 2,
+                      0, -1, 2**70, -2**70, 10**4300, -10**5000] \
+                    + magic.pool().ints:
                 yield {'t': 'fixed', 'enc': name, 'v': v, 'lo': lo, 'hi': hi}
     else:
         for _ in range(shard['seqs']):
